@@ -243,6 +243,60 @@ theorem sMt_entry (nm nt nta e : Nat) (he : e < nta * (nm * nt)) :
       rw [hlen] at this
       rw [← this]; exact hdiv
 
+
+theorem length_flattenF {α} [Inhabited α] (rows : List (List α)) (ncols : Nat) :
+    (flattenF rows ncols).length = ncols * rows.length := by
+  unfold flattenF
+  induction ncols with
+  | zero => simp
+  | succ k ih =>
+    rw [List.range_succ, List.flatMap_append, List.length_append, ih]
+    simp [Nat.add_mul]
+
+/-- entry `e` of the column-major flattening is element `(e % nrows, e / nrows)` -/
+theorem getElem?_flattenF {α} [Inhabited α] (rows : List (List α)) (ncols e : Nat) (he : e < ncols * rows.length) :
+    (flattenF rows ncols)[e]? = (rows[e % rows.length]?).map (fun r => r.getD (e / rows.length) default) := by
+  unfold flattenF
+  induction ncols generalizing e with
+  | zero => simp at he
+  | succ k ih =>
+    have hpos : 0 < rows.length := by
+      rcases Nat.eq_zero_or_pos rows.length with h0 | h0
+      · rw [h0] at he; simp at he
+      · exact h0
+    rw [List.range_succ, List.flatMap_append]
+    have hlen : ((List.range k).flatMap fun c => rows.map (fun r => r.getD c default)).length = k * rows.length :=
+      length_flattenF rows k
+    by_cases hlt : e < k * rows.length
+    · rw [List.getElem?_append_left (by rw [hlen]; exact hlt)]
+      exact ih e hlt
+    · have hge : k * rows.length ≤ e := Nat.le_of_not_lt hlt
+      rw [List.getElem?_append_right (by rw [hlen]; exact hge), hlen]
+      have hq : e - k * rows.length < rows.length := by
+        rw [Nat.add_mul, Nat.one_mul] at he; omega
+      have hdm := div_mod_of_lt k rows.length (e - k * rows.length) hq
+      have hsum : k * rows.length + (e - k * rows.length) = e := by omega
+      rw [hsum] at hdm
+      simp only [List.flatMap_cons, List.flatMap_nil, List.append_nil, List.getElem?_map]
+      rw [hdm.1, hdm.2]
+
+/-- `data_mt[e]` is `M[pair][splice]` with `pair = (e % (nm·nt)) % nm`, `splice = e / (nm·nt)`: the value stored at the row and
+column of `sMt_entry` -/
+theorem sMtData_entry {α} [Inhabited α] (M : List (List α)) (nt nta e : Nat) (he : e < nta * (M.length * nt)) :
+    (sMtData M nt nta)[e]? =
+      (M[e % (M.length * nt) % M.length]?).map (fun r => r.getD (e / (M.length * nt)) default) := by
+  unfold sMtData
+  have hlen : (tile M nt).length = M.length * nt := by rw [length_tile, Nat.mul_comm]
+  rw [getElem?_flattenF _ _ _ (by rw [hlen]; exact he), hlen]
+  have hpos : 0 < M.length * nt := by
+    rcases Nat.eq_zero_or_pos (M.length * nt) with h0 | h0
+    · rw [h0] at he; simp at he
+    · exact h0
+  have hq : e % (M.length * nt) < nt * M.length := by
+    have := Nat.mod_lt e hpos
+    rw [Nat.mul_comm nt M.length]; exact this
+  rw [getElem?_tile _ _ _ hq]
+
 /-! ## double-ended: `Z_D`, `E`, `Z_TA_fw`, `Z_TA_bw` (rows are location-major: `r*nt + j`) -/
 theorem dD_at (nt nx r j : Nat) (hr : r < nx) (hj : j < nt) :
     (dDRow nt nx)[r * nt + j]? = some (r * nt + j) ∧ (dDCol nt nx)[r * nt + j]? = some j := by
